@@ -104,6 +104,7 @@ func c31(p *core.Program, r *core.Report) {
 	r.Rule("R1", "option registry: every flag registered for the server command is bound to the server.Config field whose dotted toml tag path equals the flag name (so the flag, the environment variable derived from the flag name and the configuration-file key address the same option), and every leaf that toml.Marshal(Config) renders is a registered flag name (setAllConfig rejects unknown keys, so anything else breaks the generate-config round trip)")
 	r.Rule("R2", "default agreement: the default passed to each flag registration is the bound Config field itself, or a constant equal to what NewConfig assigns to that field")
 	r.Rule("R3", "precedence skeleton of setAllConfig: flags are bound and the environment enabled before values are read; the configuration file is read only when a path is given; a flag the user set (f.Changed) is never overwritten; string-slice options are read with GetStringSlice")
+	r.Rule("R4", "every value survives rendering: a Config field whose toml tag carries `omitempty` has the zero value as its NewConfig default; otherwise setting it to zero renders no key and reading the file back restores the non-zero default")
 	r.NotDecided = "viper's own precedence implementation (third party), TOML encode/decode fidelity for all values"
 	ctl, srv, cmd := p.Pkg("ctl"), p.Pkg("server"), p.Pkg("cmd")
 	if ctl == nil || srv == nil || cmd == nil {
@@ -127,6 +128,50 @@ func c31(p *core.Program, r *core.Report) {
 	}
 	// NewConfig defaults: go path -> constant value string
 	defaults := c31Defaults(srv)
+	{
+		var walk func(t types.Type, goPrefix string, depth int)
+		nOmit := 0
+		walk = func(t types.Type, goPrefix string, depth int) {
+			st, ok := t.Underlying().(*types.Struct)
+			if !ok || depth > 6 {
+				return
+			}
+			for i := 0; i < st.NumFields(); i++ {
+				f := st.Field(i)
+				if !f.Exported() {
+					continue
+				}
+				gp := f.Name()
+				if goPrefix != "" {
+					gp = goPrefix + "." + f.Name()
+				}
+				tag := reflect.StructTag(st.Tag(i)).Get("toml")
+				parts := strings.Split(tag, ",")
+				omit := false
+				for _, o := range parts[1:] {
+					if o == "omitempty" {
+						omit = true
+					}
+				}
+				if omit {
+					nOmit++
+					def, has := defaults[gp]
+					zero := !has || def == "" || def == zeroOf(f.Type()) || def == "0" || def == "false" || def == `""`
+					r.Check(zero, "R4", "Config."+gp+" omitempty", "", "default is the zero value", "Config."+gp+" is rendered with omitempty but NewConfig defaults it to "+def+": a file rendered from a configuration that sets it to the zero value carries no key for it, and reading the file back restores "+def)
+				}
+				if n := core.NamedOf(f.Type()); n != nil && n.Obj().Name() == "Duration" {
+					continue
+				}
+				if _, isStruct := f.Type().Underlying().(*types.Struct); isStruct {
+					walk(f.Type(), gp, depth+1)
+				}
+			}
+		}
+		walk(cfgObj.Type(), "", 0)
+		if nOmit == 0 {
+			r.Hold("R4", "Config omitempty tags", "no Config field is rendered with omitempty")
+		}
+	}
 
 	registered := map[string]bool{}
 	type reg struct {
